@@ -471,6 +471,11 @@ impl Task {
                 )))?;
 
                 ctx.back_task(&ctx.task(), &path_tasks)?;
+                // a target that encloses the act is still open: the redone task takes its place
+                if !task.state().is_completed() {
+                    task.set_state(TaskState::Backed);
+                    ctx.emit_task(&task)?;
+                }
                 ctx.redo_task(&task)?;
             }
             EventAction::Cancel => {
